@@ -219,7 +219,14 @@ func (r *runner) do(client, idx int, op COp, uniq int) {
 				if n < 0 {
 					n = 0
 				}
-				if _, werr = f.Write(b[:n]); werr != nil {
+				// through a scratch buffer that is overwritten once Write has returned (io.Writer
+				// implementations must not retain the slice)
+				q := append([]byte(nil), b[:n]...)
+				_, werr = f.Write(q)
+				for i := range q {
+					q[i] ^= 0xA5
+				}
+				if werr != nil {
 					break
 				}
 				b = b[n:]
